@@ -182,7 +182,7 @@ _VALUE_NOTE = ("trusted: the exact oracle in harness/core (naturals with multipl
 
 MANIFEST_TEXT = {
     "C16": dict(level="Purity explored along each quantifier: iterator shapes and addresses (complete split positions), call histories (all ordered pairs/triples of an alphabet covering every path class, with poisoned stack), schedules (loom, exhaustive at call granularity), and the independence premise (race detector, free-running threads).", design_ref="DESIGN.md 4/C16", note="loom controls only the scheduling points the harness inserts between calls; histories are depth 2-3", technique="exhaustive call-level schedule exploration (loom) + bounded-exhaustive history and iterator-shape enumeration on the real code", engine="mlx + loomc16 (loom 0.7) + Miri"),
-    "C08": dict(level="The byte-class family is enumerated completely up to length 3 per part and executed under four UB monitors; the verdict is that no execution ends other than by a value or a clean unwinding panic.", design_ref="DESIGN.md 4/C08", note="monitors: debug assertions + core UB checks, ASan, Miri (Tree Borrows); byte strings beyond the family are not explored", technique="bounded-exhaustive enumeration of byte strings on the real code under UB monitors (debug-assertion build, ASan, Miri)", engine="mlx (+ nightly ASan and Miri builds of the same engine)"),
+    "C08": dict(level="The byte-class family is enumerated completely up to length 3 per part, together with a 2.5 M-input valid-digit slice that reaches the big-integer and table-indexing code at every decimal exponent, and executed under four UB monitors; the verdict is that no execution ends other than by a value or a clean unwinding panic.", design_ref="DESIGN.md 4/C08", note="monitors: debug assertions + core UB checks, ASan, Miri (Tree Borrows); byte strings beyond the family are not explored", technique="bounded-exhaustive enumeration of byte strings on the real code under UB monitors (debug-assertion build, ASan, Miri)", engine="mlx (+ nightly ASan and Miri builds of the same engine)"),
     "C19": dict(level="Every short byte string over an 11-byte alphabet that contains each syntactic role, plus special-literal and structured products, through all seven copies compiled from the repository; reference grammar + exact oracle.", design_ref="DESIGN.md 4/C19", note="strings longer than 6 (7) bytes only through the structured product", technique="bounded-exhaustive string enumeration on the real front-end copies against a reference recogniser + exact oracle"),
     "C11": dict(level="The stage is driven directly through its public entry point on a structured and a number-theoretic (w,q,flag) family in both implementations; every definite answer is verified exactly, including the interval condition for truncated significands.", design_ref="DESIGN.md 4/C11", note="w outside the structured/HARD sets is not enumerated (2^64 per exponent)", technique="bounded-exhaustive enumeration of stage inputs on the real code, exact interval oracle"),
     "C12": dict(level="Each operation is compared with naturals on an operand family built to put carries, zero limbs and the capacity edge at every position; pow and shl are complete over their exponent ranges.", design_ref="DESIGN.md 4/C12", note="operand values outside the LIMBS family are not enumerated", technique="bounded-exhaustive operand enumeration against a natural-number reference model"),
